@@ -560,7 +560,10 @@ fn op_fit(em: &mut Em, rng: &mut Rng, n: usize) {
     };
     // regression target: smooth function of the first coordinate + lattice noise
     let yr: Vec<f64> = x.iter().map(|r| 0.5 * r[0] - 0.25 * r[1] + rng.range(-2, 2) as f64 / 8.0).collect();
-    let cmax = if f32_ { 4.0f64 } else { 1000.0 };
+    // badly scaled combinations (cubic kernels, thousands of points) with a huge C run into the
+    // 10^7-iteration cap; they are kept at moderate C so that a check stays within minutes
+    let heavy = n >= 800 || matches!(kern, Kern::Poly(_, _));
+    let cmax = if f32_ { 4.0f64 } else if heavy { 4.0 } else { 1000.0 };
     let logc = |rng: &mut Rng| -> f64 {
         let lo = 0.01f64.ln();
         let hi = cmax.ln();
@@ -582,7 +585,7 @@ fn op_fit(em: &mut Em, rng: &mut Rng, n: usize) {
         5 | 6 => Mode::EpsSvr(logc(rng).min(100.0), *rng.pick(&[0.01, 0.1, 0.5])),
         _ => Mode::NuSvr(*rng.pick(&[0.1, 0.5, 0.9]), logc(rng).min(100.0)),
     };
-    let eps = if f32_ { 1e-2 } else { *rng.pick(&[1e-3, 1e-5]) };
+    let eps = if f32_ { 1e-2 } else if heavy { 1e-3 } else { *rng.pick(&[1e-3, 1e-5]) };
     let shrinking = rng.coin();
     let platt = rng.chance(1, 3);
     let fc = FitCase { x, yb, yr, kern, mode, eps, shrinking, f32_, platt, shape: shape_name };
@@ -607,6 +610,8 @@ fn op_fit(em: &mut Em, rng: &mut Rng, n: usize) {
         list2(fc.x.iter().map(|r| r.iter()), |v| format!("{}", v))
     )
     .replace(", ", ":");
+    let t0 = std::time::Instant::now();
+    let opd = op.chars().take(160).collect::<String>();
     em.case_valid(op, &class, |ctx| {
         if std::env::var("C13_DEBUG").is_ok() {
             std::panic::set_hook(Box::new(|i| eprintln!("PANIC {}", i)));
@@ -628,6 +633,9 @@ fn op_fit(em: &mut Em, rng: &mut Rng, n: usize) {
         oracle_fit(ctx, &fc, &ft, &class);
         "-".to_string()
     });
+    if std::env::var("C13_TIME").is_ok() && t0.elapsed().as_secs_f64() > 1.0 {
+        eprintln!("{:.1}s {}", t0.elapsed().as_secs_f64(), opd);
+    }
 }
 
 fn oracle_fit(ctx: &mut Ctx, fc: &FitCase, ft: &Fitted, class: &str) {
@@ -780,6 +788,11 @@ fn oracle_fit(ctx: &mut Ctx, fc: &FitCase, ft: &Fitted, class: &str) {
                 ctx.require(a[i].abs() <= c * (1.0 + 4.0 * fe), "box", class, || format!("sample {}: coefficient {} outside [-{},{}]", i, a[i], c, c));
             }
             ctx.require(s.abs() <= 64.0 * fe * (1.0 + sumabs) * (n as f64).sqrt(), "equality", class, || format!("sum of coefficients = {}", s));
+            // second constraint of the nu-SVR dual: e'(alpha + alpha*) <= C nu n, and sum|alpha_i - alpha*_i| <= e'(alpha + alpha*)
+            let nu_ = if fc.f32_ { (_nu as f32) as f64 } else { _nu };
+            ctx.require(sumabs <= c * nu_ * n as f64 * (1.0 + 1e-6) + 64.0 * fe * (1.0 + sumabs), "nu_constraint", class, || {
+                format!("sum |coefficient| = {} exceeds C nu n = {} (C {} nu {} n {}): nu does not constrain the solution", sumabs, c * nu_ * n as f64, c, nu_, n)
+            });
             // tube width is a free variable of nu-SVR: all free vectors must share one |residual| = eps >= 0,
             // zero coefficients lie within it, bounded ones on or outside it
             let mut lo = 0.0f64; // eps >= lo
@@ -806,39 +819,7 @@ fn oracle_fit(ctx: &mut Ctx, fc: &FitCase, ft: &Fitted, class: &str) {
     }
 }
 
-fn debug_nu(rng: &mut Rng) {
-    for _ in 0..40 {
-        let n = 6 + rng.below(8);
-        let (x, y, _) = gen_points(rng, n, 1);
-        let kern = Kern::Poly(0.0, 2.0);
-        let k = Array2::from_shape_fn((n, n), |(i, j)| kern.eval(&x[i], &x[j]));
-        let nu = 0.8;
-        let mut sp = nu * n as f64 / 2.0;
-        let mut sn = sp;
-        let a0: Vec<f64> = y.iter().map(|t| if *t { let v = sp.min(1.0); sp -= v; v } else { let v = sn.min(1.0); sn -= v; v }).collect();
-        let ds = Array2::from_shape_fn((n, 2), |(i, j)| x[i][j]);
-        let st = Stepper::new(k.clone(), false, ds.view(), a0.clone(), vec![0.0; n], y.clone(), vec![1.0; n], 1e-3, false, true);
-        let s = st.solve();
-        let g: Vec<f64> = (0..n).map(|i| (0..n).map(|j| (if y[i] == y[j] { 1.0 } else { -1.0 }) * k[[i, j]] * s.alpha[j]).sum::<f64>()).collect();
-        // per class: max over I_up of -G  minus  min over I_low of -G  (y fixed within the class)
-        let mut viol = [0.0f64; 2];
-        for c in 0..2 {
-            let cls = c == 0;
-            let up: Vec<f64> = (0..n).filter(|i| y[*i] == cls && (if cls { s.alpha[*i] < 1.0 } else { s.alpha[*i] > 0.0 })).map(|i| if cls { -g[i] } else { g[i] }).collect();
-            let low: Vec<f64> = (0..n).filter(|i| y[*i] == cls && (if cls { s.alpha[*i] > 0.0 } else { s.alpha[*i] < 1.0 })).map(|i| if cls { -g[i] } else { g[i] }).collect();
-            let m = up.iter().fold(f64::NEG_INFINITY, |a, b| a.max(*b));
-            let mm = low.iter().fold(f64::INFINITY, |a, b| a.min(*b));
-            viol[c] = m - mm;
-        }
-        eprintln!("n {} it {} r {:?} rho {} viol {:?} alpha {:?} a0 {:?} y {:?}", n, s.iterations, s.r, s.rho, viol, s.alpha, a0, y.iter().map(|v| *v as u8).collect::<Vec<_>>());
-    }
-}
-
 pub fn run(em: &mut Em, rng: &mut Rng) {
-    if std::env::var("C13_DEBUG_NU").is_ok() {
-        debug_nu(&mut rng.fork());
-        return;
-    }
     let thorough = em.thorough();
     // ---- scripted steps
     let nstep = if thorough { 20000 } else { 2500 };
@@ -874,13 +855,13 @@ pub fn run(em: &mut Em, rng: &mut Rng) {
         op_solve(em, &pr, shrinking);
     }
     // ---- public API fits
-    let nfit = if thorough { 1500 } else { 250 };
+    let nfit = if thorough { 800 } else { 250 };
     for t in 0..nfit {
         let n = if thorough {
-            if t % 25 == 0 {
+            if t % 50 == 0 {
                 1000 + rng.below(1001)
             } else {
-                10 + rng.below(400)
+                10 + rng.below(300)
             }
         } else if t % 30 == 0 {
             400 + rng.below(300)
